@@ -216,6 +216,23 @@ func EditCorpus() []EditPair {
 	plain := mk(age)
 	plain.Files[0].Elements[1].N.Enum.Opts = []string{"ACTIVE", "INACTIVE"}
 	fooP := prop("foo", obj())
+	fwd := prop("forwardedFor", objRef("j5.messaging.v1", "RequestMetadata"))
+	ups := prop("prev", objRef("j5.messaging.v1", "UpsertMetadata"))
+	topicBundle := func(kind string, extra *Property) *Bundle {
+		fields := []*Property{prop("fooId", key("id62")), prop("name", str("string"))}
+		if extra != nil {
+			fields = append(fields, extra)
+		}
+		t := &Topic{Kind: kind, Name: "Baz"}
+		if kind == "reqres" {
+			t.Req = []*Tmsg{{Fields: fields}}
+			t.Reply = []*Tmsg{{Fields: []*Property{prop("ok", str("bool"))}}}
+		} else {
+			t.Entity = "foo.v1.Baz"
+			t.Msgs = []*Tmsg{{Fields: fields}}
+		}
+		return &Bundle{Files: []*File{file(foo, "a", &Element{Kind: "topic", Topic: t})}}
+	}
 	return []EditPair{
 		{mk(), plain, "foo.v1", []EditRec{{"field", "foo/v1/a.j5s:Foo", "age scalar", "EAppendField 0 0 " + age.Coq(), ""},
 			{"option", "foo/v1/a.j5s:Status", "INACTIVE", "EAppendOption 0 1 " + S("INACTIVE"), ""}}, false},
@@ -225,6 +242,12 @@ func EditCorpus() []EditPair {
 		// and therefore replaces the implicit zero value STATUS_UNSPECIFIED by STATUS_OLD_UNSPECIFIED
 		{emptyEnum(), emptyEnum("OLD_UNSPECIFIED"), "foo.v1",
 			[]EditRec{{"option", "foo/v1/a.j5s:Status", "OLD_UNSPECIFIED", "EAppendOption 0 0 " + S("OLD_UNSPECIFIED"), ""}}, true},
+		// seeded C13-D class, deterministic: a field referring to the type of the implicit leading field appended to
+		// a reqres request message / an upsert message (the implicit field must keep number 1, the old fields theirs)
+		{topicBundle("reqres", nil), topicBundle("reqres", fwd), "foo.v1",
+			[]EditRec{{"field", "foo/v1/a.j5s/topic:BazRequestMessage", "forwardedFor ref to implicit type RequestMetadata", "EAppendTopicField 0 0 0 " + fwd.Coq(), ""}}, false},
+		{topicBundle("upsert", nil), topicBundle("upsert", ups), "foo.v1",
+			[]EditRec{{"field", "foo/v1/a.j5s/topic:BazMessage", "prev ref to implicit type UpsertMetadata", "EAppendTopicField 0 0 0 " + ups.Coq(), ""}}, false},
 		// not the finding: an ordinary option, and the zero value spelled out, appended to an enum without options
 		{emptyEnum(), emptyEnum("ACTIVE", "OLD_UNSPECIFIED"), "foo.v1",
 			[]EditRec{{"option", "foo/v1/a.j5s:Status", "ACTIVE", "EAppendOption 0 0 " + S("ACTIVE"), ""},
